@@ -13,6 +13,18 @@
     gen_pbuf_readFrom         the same under `len ≤ BufferSize` and the capacity invariant `CapOK`: no panic
   `(0, nil)` answers are passed through and the loop continues (LzProofs/ReaderNil.lean); an exhausted script answers
   `(0, io.EOF)`.  No sorry, no axioms of its own.
+
+  Shape independence.  No statement of this file mentions the loop function `ParserBuffer_ReadFrom_loop_1` (its argument
+  list, state tuple and exit codes change when the Go loop is restructured, e.g. `for { if full { err = …; break } … }`
+  ↦ `for !full { … return … }; return …`).  `gen_pbuf_readFrom_agree` unfolds `ParserBuffer_ReadFrom`, generalises the
+  start length and proves the WHOLE block `Res.bind (loop …) tail` by induction on the fuel inside the one proof: the
+  loop function is unfolded by its defining equation only, every `if` of the Go text is decided by `omega` from the
+  model's case split (`decide_ite`: any spelling, either arm), `t`, the `grow` idiom, the clamp of `end` and the two
+  slice bounds are taken from the goal by unification (`generalize` of the first `if` of a type / `∀ e', e' = … →`
+  lemmas whose side condition is `omega` / `split <;> omega`), the exit code of a returning loop is evaluated by `simp`.
+  What the proof does depend on: the state of the loop other than `b`, `r` is re-entered unchanged after a `nil` error
+  (`err = nil` is rewritten), the order window — read — write-back — re-slice — error test, and the lemmas about them
+  (`lend_read`, `gen_ensure`, `readLoop_read`).
 -/
 import LzModel.Generated.CodePBufReadFrom
 import LzProofs.GenBufPropsP
@@ -68,10 +80,10 @@ theorem read_length_le (r : Reader) (sz : Nat) : (r.read sz).2.1.length ≤ sz :
 
 /-- the lent window: slice, call, write-back, re-slice — in terms of the list of bytes the reader delivered -/
 theorem lend_read (s : Slice) (hs : SWF s) (e : Nat) (he1 : s.len ≤ e) (he2 : e ≤ s.arr.length) (r : Reader) :
-    ∃ p p' s', Slice.slice s (Int.ofNat s.len) (e : Int) = Res.ok p ∧ p.len = e - s.len ∧
+    ∃ p p' s', Slice.slice s (s.len : Int) (e : Int) = Res.ok p ∧ p.len = e - s.len ∧
       mRead r p = Res.ok ((r.read (e - s.len)).1, p', ((r.read (e - s.len)).2.1.length : Int),
         rfErr (errOfCode (r.read (e - s.len)).2.2)) ∧
-      Slice.slice (Slice.writeBack s p') 0 (Int.ofNat (Slice.writeBack s p').len + ((r.read (e - s.len)).2.1.length : Int))
+      Slice.slice (Slice.writeBack s p') 0 (((Slice.writeBack s p').len : Int) + ((r.read (e - s.len)).2.1.length : Int))
         = Res.ok s' ∧
       s'.data = s.data ++ (r.read (e - s.len)).2.1 ∧ s'.arr.length = s.arr.length ∧
       s'.len = s.len + (r.read (e - s.len)).2.1.length := by
@@ -85,8 +97,8 @@ theorem lend_read (s : Slice) (hs : SWF s) (e : Nat) (he1 : s.len ≤ e) (he2 : 
     ?_, rfl, rfl, ?_, ?_, ?_, ?_⟩
   · exact slice_ok s s.len e he1 he2
   · have h0 : ((0 : Nat) : Int) = 0 := rfl
-    have hcast : Int.ofNat (Slice.writeBack s
-        { arr := (r.read (e - s.len)).2.1 ++ (s.arr.drop s.len).drop (r.read (e - s.len)).2.1.length, len := e - s.len }).len +
+    have hcast : ((Slice.writeBack s
+        { arr := (r.read (e - s.len)).2.1 ++ (s.arr.drop s.len).drop (r.read (e - s.len)).2.1.length, len := e - s.len }).len : Int) +
         ((r.read (e - s.len)).2.1.length : Int) = ((s.len + (r.read (e - s.len)).2.1.length : Nat) : Int) := by
       show ((s.len : Nat) : Int) + _ = _
       omega
@@ -104,19 +116,6 @@ theorem lend_read (s : Slice) (hs : SWF s) (e : Nat) (he1 : s.len ≤ e) (he2 : 
   · simp only [Slice.writeBack, List.length_append, List.length_take, List.length_drop, List.drop_zero]
     omega
   · simp only [Nat.sub_zero]
-
-theorem gen_min_nat (a b : Nat) : Gen.min (a : Int) (b : Int) = ((Nat.min a b : Nat) : Int) := by
-  rw [LZ.GenProps.gen_min]
-  have : Nat.min a b = if a ≤ b then a else b := natmin_le a b
-  rw [this]
-  split <;> omega
-
-/-- the result of `ReadFrom` agrees with the model's; a model `.panic` stands for a Go panic -/
-def RLAgree (x : Res (Gen.Err × ParserBuffer × Reader)) (b : ParserBuffer) (m : PBuf × Reader × LZ.Err) : Prop :=
-  match x with
-  | .ok (e, b', r') => m.2.2 ≠ .panic ∧ ofPB b' = m.1 ∧ r' = m.2.1 ∧ e = rfErr m.2.2 ∧ PBWF b' ∧ b.Data.len ≤ b'.Data.len
-  | .panic => m.2.2 = .panic
-  | .fuel => False
 
 /-- one unfolding of the model loop with the script made explicit -/
 theorem readLoop_nil (b : PBuf) (p : List Byte) :
@@ -168,42 +167,6 @@ theorem readLoop_cons (b : PBuf) (p : List Byte) (mx ec : Nat) (rest : List (Nat
     | some b' =>
       simp only []
 
-/-- the `grow` idiom of the loop: `if t+7 > cap(b.Data) { b.grow(t) }` -/
-theorem gen_ensure (b : ParserBuffer) (h : PBWF b) (T : Nat) (f : ParserBuffer → Res ParserBuffer)
-    (hf : ∀ x, f x = Res.ok x) :
-    match (if T + Facts.margin > (ofPB b).cap then (ofPB b).grow T else some (ofPB b)) with
-    | some m => ∃ b', (if ((T : Int) + 7) > (Int.ofNat b.Data.cap) then Res.bind (ParserBuffer_grow b (T : Int)) f
-          else Res.ok b) = Res.ok b' ∧ ofPB b' = m ∧ PBWF b' ∧ m.data = (ofPB b).data
-    | none => (if ((T : Int) + 7) > (Int.ofNat b.Data.cap) then Res.bind (ParserBuffer_grow b (T : Int)) f
-          else Res.ok b) = Res.panic := by
-  have hcap : (ofPB b).cap = b.Data.cap := rfl
-  have hm : Facts.margin = 7 := PBuf.margin_eq
-  by_cases hc : T + Facts.margin > (ofPB b).cap
-  · have hc' : ((T : Int) + 7) > (Int.ofNat b.Data.cap) := by
-      show ((T : Int) + 7) > ((b.Data.cap : Nat) : Int)
-      omega
-    simp only [hc, hc', if_true]
-    have hg := gen_pbuf_grow b h T
-    split at hg
-    · obtain ⟨b', h1, h2, h3⟩ := hg
-      rename_i m hm'
-      simp only [hm']
-      refine ⟨b', by rw [h1]; simp only [bind_ok, hf], h2, h3, ?_⟩
-      rw [model_grow_unfold] at hm'
-      split at hm'
-      · cases hm'; rfl
-      · split at hm'
-        · cases hm'; rfl
-        · cases hm'
-    · rename_i hm'
-      simp only [hm']
-      rw [hg]; rfl
-  · have hc' : ¬ ((T : Int) + 7) > (Int.ofNat b.Data.cap) := by
-      show ¬ ((T : Int) + 7) > ((b.Data.cap : Nat) : Int)
-      omega
-    simp only [hc, hc', if_false]
-    exact ⟨b, rfl, rfl, h, by first | rfl | trivial⟩
-
 theorem bind_ok_right {α : Type} (x : Res α) : Res.bind x (fun a => Res.ok a) = x := by
   cases x <;> rfl
 
@@ -253,152 +216,6 @@ theorem read_code_zero (r : Reader) (sz : Nat) (h : (r.read sz).2.2 = 0) :
     obtain ⟨mx, ec⟩ := x
     simp [read_cons]
 
-theorem RLAgree_mono {x : Res (Gen.Err × ParserBuffer × Reader)} {b b2 : ParserBuffer} {m : PBuf × Reader × LZ.Err}
-    (hl : b.Data.len ≤ b2.Data.len) (h : RLAgree x b2 m) : RLAgree x b m := by
-  unfold RLAgree at *
-  split
-  · rename_i e b' r'
-    simp only [] at h
-    obtain ⟨h1, h2, h3, h4, h5, h6⟩ := h
-    exact ⟨h1, h2, h3, h4, h5, by omega⟩
-  · exact h
-  · exact h
-
-theorem loop_step (r : Reader) (b : ParserBuffer) (err0 : Gen.Err) (fuel : Nat) (h : PBWF b)
-    (IH : ∀ (b2 : ParserBuffer) (err : Gen.Err) (r' : Reader), r'.resps.length + 1 = r.resps.length → PBWF b2 →
-      RLAgree (ParserBuffer_ReadFrom_loop_1 mRead fuel err b2 r') b2 (PBuf.readLoop (ofPB b2) r')) :
-    RLAgree (ParserBuffer_ReadFrom_loop_1 mRead (fuel + 1) err0 b r) b (PBuf.readLoop (ofPB b) r) := by
-  rw [ParserBuffer_ReadFrom_loop_1]
-  generalize hM : PBuf.readLoop (ofPB b) r = M
-  rw [readLoop_read] at hM
-  have hswf : b.Data.len ≤ b.Data.arr.length := h.data
-  have hlen : (ofPB b).data.length = b.Data.len := data_length h.data
-  obtain ⟨B, hB⟩ : ∃ B : Nat, b.BufConfig.BufferSize = (B : Int) := ⟨b.BufConfig.BufferSize.toNat, by have := h.bs; omega⟩
-  have hbs : (ofPB b).cfg.bufferSize = B := by simp only [ofPB, ofCfg]; omega
-  -- the buffer-full test of the Go text, whatever its spelling
-  split
-  · rename_i hgo
-    simp only [Int.ofNat_eq_natCast] at hgo
-    have hfull : (ofPB b).data.length ≥ (ofPB b).cfg.bufferSize := by omega
-    simp only [hfull, if_true] at hM
-    subst hM
-    exact ⟨(by intro hc; cases hc), rfl, rfl, rfl, h, Nat.le_refl _⟩
-  · rename_i hgo
-    simp only [Int.ofNat_eq_natCast] at hgo
-    have hfull : ¬ (ofPB b).data.length ≥ (ofPB b).cfg.bufferSize := by omega
-    simp only [hfull, if_false] at hM
-    subst hM
-    simp only []
-    have hT : Gen.min (Int.ofNat b.Data.len + 32768) b.BufConfig.BufferSize =
-        ((Min.min ((ofPB b).data.length + Facts.chunkSize) (ofPB b).cfg.bufferSize : Nat) : Int) := by
-      rw [hlen, hbs, hB]
-      have : Int.ofNat b.Data.len + 32768 = ((b.Data.len + Facts.chunkSize : Nat) : Int) := by
-        show ((b.Data.len : Nat) : Int) + 32768 = _
-        have : Facts.chunkSize = 32768 := by decide
-        omega
-      rw [this]
-      exact gen_min_nat _ _
-    rw [hT]
-    simp only [bind_ok_right]
-    have hE := gen_ensure b h (Min.min ((ofPB b).data.length + Facts.chunkSize) (ofPB b).cfg.bufferSize) (fun x => Res.ok x)
-      (fun x => rfl)
-    simp only [bind_ok_right] at hE
-    revert hE
-    generalize (if Min.min ((ofPB b).data.length + Facts.chunkSize) (ofPB b).cfg.bufferSize + Facts.margin > (ofPB b).cap
-      then (ofPB b).grow (Min.min ((ofPB b).data.length + Facts.chunkSize) (ofPB b).cfg.bufferSize) else some (ofPB b)) = o
-    intro hE
-    cases o with
-    | none =>
-      simp only [] at hE
-      rw [hE]
-      rfl
-    | some m =>
-      simp only [] at hE
-      obtain ⟨b1, hE1, hE2, hE3, hE4⟩ := hE
-      rw [hE1]
-      simp only [bind_ok]
-      subst hE2
-      have hswf1 : b1.Data.len ≤ b1.Data.arr.length := hE3.data
-      have hlen1 : (ofPB b1).data.length = b1.Data.len := data_length hE3.data
-      have hL : b.Data.len = b1.Data.len := by rw [← hlen, ← hlen1, hE4]
-      obtain ⟨B1, hB1⟩ : ∃ B : Nat, b1.BufConfig.BufferSize = (B : Int) :=
-        ⟨b1.BufConfig.BufferSize.toNat, by have := hE3.bs; omega⟩
-      have hbs1 : (ofPB b1).cfg.bufferSize = B1 := by simp only [ofPB, ofCfg]; omega
-      have hcap1 : (ofPB b1).cap = b1.Data.arr.length := rfl
-      have hm : Facts.margin = 7 := PBuf.margin_eq
-      have hcapI : Int.ofNat b1.Data.cap = (b1.Data.arr.length : Int) := rfl
-      have hlenI : Int.ofNat b1.Data.len = (b1.Data.len : Int) := rfl
-      rw [hlen1, hbs1, hcap1, hm, hB1, hcapI, hlenI]
-      by_cases hbad : b1.Data.arr.length < 7 ∨ Min.min (b1.Data.arr.length - 7) B1 < b1.Data.len
-      · simp only [hbad, if_true]
-        rw [slice_panic]
-        · rfl
-        · -- the clamp of `end`, whatever its spelling
-          first
-          | omega
-          | (split <;> omega)
-          | (rw [LZ.GenProps.gen_min]; omega)
-      · simp only [hbad, if_false]
-        obtain ⟨p, p', s', h1, h2, h3, h4, h5, h6, h7⟩ :=
-          lend_read b1.Data hE3.data (Min.min (b1.Data.arr.length - 7) B1) (by omega) (by omega) r
-        have hsl : ∀ e' : Int, e' = ((Min.min (b1.Data.arr.length - 7) B1 : Nat) : Int) →
-            Slice.slice b1.Data (b1.Data.len : Int) e' = Res.ok p := by
-          intro e' he; rw [he]; exact h1
-        rw [hsl]
-        rotate_left
-        · -- the clamp of `end`, whatever its spelling
-          first
-          | omega
-          | (split <;> omega)
-          | (rw [LZ.GenProps.gen_min]; omega)
-        simp only [bind_ok]
-        rw [h3]
-        simp only [bind_ok]
-        rw [h4]
-        simp only [bind_ok]
-        generalize hx : r.read (Min.min (b1.Data.arr.length - 7) B1 - b1.Data.len) = x at h3 h4 h5 h6 h7 ⊢
-        have hof : ofPB { Data := s', W := b1.W, Off := b1.Off, BufConfig := b1.BufConfig } =
-            { data := (ofPB b1).data ++ x.2.1, w := (ofPB b1).w, off := (ofPB b1).off, cap := b1.Data.arr.length,
-              cfg := (ofPB b1).cfg } := by
-          simp only [ofPB, h5, Slice.cap, h6]
-        have hwf2 : PBWF { Data := s', W := b1.W, Off := b1.Off, BufConfig := b1.BufConfig } := by
-          refine ⟨?_, hE3.w, hE3.off, hE3.ss, hE3.bs⟩
-          show s'.len ≤ s'.arr.length
-          have := read_length_le r (Min.min (b1.Data.arr.length - 7) B1 - b1.Data.len)
-          rw [hx] at this
-          omega
-        by_cases hcode : x.2.2 = 0
-        · have hne : ¬ (x.2.2 ≠ 0) := by omega
-          have hgo : ¬ (rfErr (errOfCode x.2.2) ≠ Gen.Err.ok) := by rw [hcode]; exact fun hh => hh rfl
-          simp only [hne, hgo, if_false]
-          rw [← hof]
-          refine RLAgree_mono (by show b.Data.len ≤ s'.len; omega) (IH _ _ _ ?_ hwf2)
-          have := read_code_zero r (Min.min (b1.Data.arr.length - 7) B1 - b1.Data.len) (by rw [hx]; exact hcode)
-          rw [hx] at this
-          exact this
-        · have hgo : rfErr (errOfCode x.2.2) ≠ Gen.Err.ok := rfErr_errOfCode_ne _ hcode
-          simp only [hcode, hgo, ne_eq, not_false_eq_true, if_true]
-          refine ⟨?_, hof, rfl, rfl, hwf2, ?_⟩
-          · show errOfCode x.2.2 ≠ .panic
-            unfold errOfCode
-            split <;> intro hc <;> cases hc
-          · show b.Data.len ≤ s'.len
-            omega
-
-theorem readLoop_agree : ∀ (n : Nat) (r : Reader) (b : ParserBuffer) (err0 : Gen.Err) (fuel : Nat),
-    r.resps.length = n → PBWF b → n + 1 ≤ fuel →
-    RLAgree (ParserBuffer_ReadFrom_loop_1 mRead fuel err0 b r) b (PBuf.readLoop (ofPB b) r) := by
-  intro n
-  induction n with
-  | zero =>
-    intro r b err0 fuel hn h hf
-    obtain ⟨fuel, rfl⟩ : ∃ f, fuel = f + 1 := ⟨fuel - 1, by omega⟩
-    exact loop_step r b err0 fuel h (fun b2 err r' hr _ => by omega)
-  | succ n ih =>
-    intro r b err0 fuel hn h hf
-    obtain ⟨fuel, rfl⟩ : ∃ f, fuel = f + 1 := ⟨fuel - 1, by omega⟩
-    exact loop_step r b err0 fuel h (fun b2 err r' hr h2 => ih r' b2 err fuel (by omega) h2 (by omega))
-
 /-- agreement of the results of `ReadFrom`; a model `.panic` stands for a Go panic -/
 def RFAgree (x : Res (ParserBuffer × Reader × Int × Gen.Err)) (m : PBuf × Reader × Nat × LZ.Err) : Prop :=
   match x with
@@ -406,33 +223,214 @@ def RFAgree (x : Res (ParserBuffer × Reader × Int × Gen.Err)) (m : PBuf × Re
   | .panic => m.2.2.2 = .panic
   | .fuel => False
 
+
+/-- the model side of `RFAgree` with the loop made explicit -/
+theorem readFrom_eq (b : PBuf) (r : Reader) :
+    PBuf.readFrom b r = ((PBuf.readLoop b r).1, (PBuf.readLoop b r).2.1,
+      (PBuf.readLoop b r).1.data.length - b.data.length, (PBuf.readLoop b r).2.2) := rfl
+
+/-- `RFAgree` with the start length a parameter `N0` (the induction over the loop generalises it: `b` changes from
+    iteration to iteration, the start length does not) and the model LOOP on the right -/
+def RFAgreeN (N0 : Nat) (x : Res (ParserBuffer × Reader × Int × Gen.Err)) (m : PBuf × Reader × LZ.Err) : Prop :=
+  match x with
+  | .ok (b', r', n, e) => m.2.2 ≠ .panic ∧ ofPB b' = m.1 ∧ r' = m.2.1 ∧ n = ((m.1.data.length - N0 : Nat) : Int) ∧
+      e = rfErr m.2.2 ∧ PBWF b'
+  | .panic => m.2.2 = .panic
+  | .fuel => False
+
+theorem RFAgree_of_N (x : Res (ParserBuffer × Reader × Int × Gen.Err)) (b : PBuf) (r : Reader)
+    (h : RFAgreeN b.data.length x (PBuf.readLoop b r)) : RFAgree x (PBuf.readFrom b r) := by
+  rw [readFrom_eq]
+  cases x with
+  | ok v => obtain ⟨b', r', n, e⟩ := v; exact h
+  | panic => exact h
+  | fuel => exact h
+
+/-- a successful return of the Go text: what has to be shown about its four components (`n` as the DIFFERENCE of the
+    lengths, computed in `Int`) -/
+theorem RFAgreeN_ok {N0 : Nat} {b' : ParserBuffer} {r' : Reader} {n : Int} {e : Gen.Err} {m : PBuf × Reader × LZ.Err}
+    (h1 : m.2.2 ≠ .panic) (h2 : ofPB b' = m.1) (h3 : r' = m.2.1) (h6 : PBWF b') (hN : N0 ≤ b'.Data.len)
+    (h4 : n = (b'.Data.len : Int) - (N0 : Int)) (h5 : e = rfErr m.2.2) :
+    RFAgreeN N0 (Res.ok (b', r', n, e)) m := by
+  refine ⟨h1, h2, h3, ?_, h5, h6⟩
+  have : m.1.data.length = b'.Data.len := by rw [← h2]; exact data_length h6.data
+  rw [this, h4]
+  omega
+
+/-- the `grow` idiom of the loop, `if t+7 > cap(b.Data) { b.grow(t) }`, as ANY term `x` that is `b.grow(t)` when
+    `t + 7 > cap` and `b` otherwise (the caller shows the two implications from the Go text by deciding its test) -/
+theorem gen_ensure (b : ParserBuffer) (h : PBWF b) (T : Nat) (x : Res ParserBuffer)
+    (hpos : T + 7 > b.Data.arr.length → x = ParserBuffer_grow b (T : Int))
+    (hneg : ¬ T + 7 > b.Data.arr.length → x = Res.ok b) :
+    match (if T + Facts.margin > (ofPB b).cap then (ofPB b).grow T else some (ofPB b)) with
+    | some m => ∃ b', x = Res.ok b' ∧ ofPB b' = m ∧ PBWF b' ∧ m.data = (ofPB b).data
+    | none => x = Res.panic := by
+  have hcap : (ofPB b).cap = b.Data.arr.length := rfl
+  have hm : Facts.margin = 7 := PBuf.margin_eq
+  rw [hcap, hm]
+  by_cases hc : T + 7 > b.Data.arr.length
+  · simp only [hc, if_true]
+    rw [hpos hc]
+    have hg := gen_pbuf_grow b h T
+    split at hg
+    · obtain ⟨b', h1, h2, h3⟩ := hg
+      rename_i m hm'
+      simp only [hm']
+      refine ⟨b', h1, h2, h3, ?_⟩
+      rw [model_grow_unfold] at hm'
+      split at hm'
+      · cases hm'; rfl
+      · split at hm'
+        · cases hm'; rfl
+        · cases hm'
+    · rename_i hm'
+      simp only [hm']
+      exact hg
+  · simp only [hc, if_false]
+    exact ⟨b, hneg hc, rfl, h, by first | rfl | trivial⟩
+
+/-- decide the FIRST `if` of the goal from the hypotheses, whatever the spelling of its test and whichever arm is taken -/
+macro "decide_ite" : tactic =>
+  `(tactic| first | rw [if_pos (by omega)] | rw [if_neg (by omega)])
+
 /-- **`ReadFrom` of the Go text = `PBuf.readFrom`**, for every buffer, every reader script (short reads, `(0, nil)`
-    answers, errors at any call, exhausted script = `io.EOF`), explicit fuel: one more than the script length. -/
+    answers, errors at any call, exhausted script = `io.EOF`), explicit fuel: one more than the script length.
+
+    The proof does not mention the argument list, the state tuple or the exit codes of the loop function: the function
+    is unfolded, the start length is generalised (`N0 ≤ len`), and the WHOLE block `Res.bind (loop …) tail` is treated by
+    induction on the fuel, using only the defining equation of the loop function; each `if` of the Go text is decided
+    from the model's case split by `omega`, the pieces `t`, `grow`, `end`, window, read, re-slice are related to the
+    model by lemmas that take the spelled terms by unification. -/
 theorem gen_pbuf_readFrom_agree (b : ParserBuffer) (h : PBWF b) (r : Reader) (fuel : Nat) (hf : r.resps.length + 1 ≤ fuel) :
     RFAgree (ParserBuffer_ReadFrom fuel mRead b r) (PBuf.readFrom (ofPB b) r) := by
-  have hl := readLoop_agree r.resps.length r b Gen.Err.ok fuel rfl h hf
-  unfold ParserBuffer_ReadFrom PBuf.readFrom
-  simp only []
-  revert hl
-  generalize ParserBuffer_ReadFrom_loop_1 mRead fuel Gen.Err.ok b r = X
-  generalize PBuf.readLoop (ofPB b) r = M
-  intro hl
-  obtain ⟨m1, m2, m3⟩ := M
-  cases X with
-  | ok v =>
-    obtain ⟨e, b', r'⟩ := v
-    obtain ⟨h1, h2, h3, h4, h5, h6⟩ := hl
-    simp only [bind_ok]
-    refine ⟨h1, h2, h3, ?_, h4, h5⟩
-    simp only [] at h2
-    have : m1.data.length = b'.Data.len := by rw [← h2]; exact data_length h5.data
-    have h0 : (ofPB b).data.length = b.Data.len := data_length h.data
-    show Int.ofNat b'.Data.len - Int.ofNat b.Data.len = ((m1.data.length - (ofPB b).data.length : Nat) : Int)
-    rw [this, h0]
-    show ((b'.Data.len : Nat) : Int) - ((b.Data.len : Nat) : Int) = _
-    omega
-  | panic => exact hl
-  | fuel => exact hl
+  apply RFAgree_of_N
+  rw [show (ofPB b).data.length = b.Data.len from data_length h.data]
+  unfold ParserBuffer_ReadFrom
+  simp only [Int.ofNat_eq_natCast]
+  -- the start length: from now on a constant `N0 ≤ len(b.Data)`
+  generalize hN : b.Data.len = N0
+  have hle : N0 ≤ b.Data.len := by omega
+  clear hN
+  induction fuel generalizing b r with
+  | zero => omega
+  | succ fuel IH =>
+    rw [ParserBuffer_ReadFrom_loop_1]
+    simp only [Int.ofNat_eq_natCast, LZ.GenProps.gen_min, Int.min_def, Slice.cap]
+    generalize hM : PBuf.readLoop (ofPB b) r = M
+    rw [readLoop_read] at hM
+    have hswf : b.Data.len ≤ b.Data.arr.length := h.data
+    have hlen : (ofPB b).data.length = b.Data.len := data_length h.data
+    obtain ⟨B, hB⟩ : ∃ B : Nat, b.BufConfig.BufferSize = (B : Int) := ⟨b.BufConfig.BufferSize.toNat, by have := h.bs; omega⟩
+    have hbs : (ofPB b).cfg.bufferSize = B := by simp only [ofPB, ofCfg]; omega
+    have hchunk : Facts.chunkSize = 32768 := by decide
+    by_cases hfull : (ofPB b).data.length ≥ (ofPB b).cfg.bufferSize
+    · -- the buffer is full
+      simp only [hfull, if_true] at hM
+      subst hM
+      decide_ite
+      simp only [bind_ok, Nat.reduceEqDiff, if_true, if_false]
+      exact RFAgreeN_ok (by intro hc; cases hc) rfl rfl h hle rfl rfl
+    · simp only [hfull, if_false] at hM
+      subst hM
+      decide_ite
+      -- `t`: the clamp in whatever spelling (helper `min`, `if` either way round)
+      generalize ht : (@ite Int _ (_) _ _) = t
+      have htT : t = ((Min.min ((ofPB b).data.length + Facts.chunkSize) (ofPB b).cfg.bufferSize : Nat) : Int) := by
+        rw [← ht, hlen, hbs]; split <;> omega
+      clear ht
+      subst htT
+      -- the `grow` idiom
+      generalize hx : (@ite (Res ParserBuffer) _ (_) _ _) = x
+      have hE := gen_ensure b h (Min.min ((ofPB b).data.length + Facts.chunkSize) (ofPB b).cfg.bufferSize) x
+        (fun hc => by rw [← hx]; decide_ite <;> try simp only [bind_ok_right])
+        (fun hc => by rw [← hx]; decide_ite <;> try simp only [bind_ok_right])
+      clear hx
+      revert hE
+      generalize (if Min.min ((ofPB b).data.length + Facts.chunkSize) (ofPB b).cfg.bufferSize + Facts.margin > (ofPB b).cap
+        then (ofPB b).grow (Min.min ((ofPB b).data.length + Facts.chunkSize) (ofPB b).cfg.bufferSize) else some (ofPB b)) = o
+      intro hE
+      cases o with
+      | none =>
+        simp only [] at hE
+        subst hE
+        exact rfl
+      | some m =>
+        simp only [] at hE
+        obtain ⟨b1, hE1, hE2, hE3, hE4⟩ := hE
+        subst hE1
+        simp only [bind_ok]
+        subst hE2
+        have hswf1 : b1.Data.len ≤ b1.Data.arr.length := hE3.data
+        have hlen1 : (ofPB b1).data.length = b1.Data.len := data_length hE3.data
+        have hL : b.Data.len = b1.Data.len := by rw [← hlen, ← hlen1, hE4]
+        obtain ⟨B1, hB1⟩ : ∃ B : Nat, b1.BufConfig.BufferSize = (B : Int) :=
+          ⟨b1.BufConfig.BufferSize.toNat, by have := hE3.bs; omega⟩
+        have hbs1 : (ofPB b1).cfg.bufferSize = B1 := by simp only [ofPB, ofCfg]; omega
+        have hcap1 : (ofPB b1).cap = b1.Data.arr.length := rfl
+        have hm : Facts.margin = 7 := PBuf.margin_eq
+        rw [hlen1, hbs1, hcap1, hm]
+        by_cases hbad : b1.Data.arr.length < 7 ∨ Min.min (b1.Data.arr.length - 7) B1 < b1.Data.len
+        · simp only [hbad, if_true]
+          rw [slice_panic]
+          · exact rfl
+          · -- the clamp of `end`, whatever its spelling
+            first
+            | omega
+            | (split <;> omega)
+        · simp only [hbad, if_false]
+          obtain ⟨p, p', s', h1, h2, h3, h4, h5, h6, h7⟩ :=
+            lend_read b1.Data hE3.data (Min.min (b1.Data.arr.length - 7) B1) (by omega) (by omega) r
+          have hsl : ∀ e' : Int, e' = ((Min.min (b1.Data.arr.length - 7) B1 : Nat) : Int) →
+              Slice.slice b1.Data (b1.Data.len : Int) e' = Res.ok p := by
+            intro e' he; rw [he]; exact h1
+          rw [hsl]
+          rotate_left
+          · -- the clamp of `end`, whatever its spelling
+            first
+            | omega
+            | (split <;> omega)
+          simp only [bind_ok]
+          rw [h3]
+          simp only [bind_ok]
+          have hsl2 : ∀ e' : Int, e' = ((Slice.writeBack b1.Data p').len : Int) +
+                ((r.read (Min.min (b1.Data.arr.length - 7) B1 - b1.Data.len)).2.1.length : Int) →
+              Slice.slice (Slice.writeBack b1.Data p') 0 e' = Res.ok s' := by
+            intro e' he; rw [he]; exact h4
+          rw [hsl2 _ (by omega)]
+          simp only [bind_ok]
+          generalize hx : r.read (Min.min (b1.Data.arr.length - 7) B1 - b1.Data.len) = x at h3 h4 h5 h6 h7 ⊢
+          have hof : ofPB { Data := s', W := b1.W, Off := b1.Off, BufConfig := b1.BufConfig } =
+              { data := (ofPB b1).data ++ x.2.1, w := (ofPB b1).w, off := (ofPB b1).off, cap := b1.Data.arr.length,
+                cfg := (ofPB b1).cfg } := by
+            simp only [ofPB, h5, Slice.cap, h6]
+          have hwf2 : PBWF { Data := s', W := b1.W, Off := b1.Off, BufConfig := b1.BufConfig } := by
+            refine ⟨?_, hE3.w, hE3.off, hE3.ss, hE3.bs⟩
+            show s'.len ≤ s'.arr.length
+            have := read_length_le r (Min.min (b1.Data.arr.length - 7) B1 - b1.Data.len)
+            rw [hx] at this
+            omega
+          by_cases hcode : x.2.2 = 0
+          · -- a nil error: the loop continues, in the state it was entered with except for `b` and `r`
+            have hne : ¬ (x.2.2 ≠ 0) := by omega
+            have hgo : rfErr (errOfCode x.2.2) = Gen.Err.ok := by rw [hcode]; exact rfErr_errOfCode_zero
+            simp only [hne, hgo, ne_eq, not_true_eq_false, if_false, if_true]
+            rw [← hof]
+            apply IH
+            · exact hwf2
+            · have := read_code_zero r (Min.min (b1.Data.arr.length - 7) B1 - b1.Data.len) (by rw [hx]; exact hcode)
+              rw [hx] at this
+              omega
+            · show N0 ≤ s'.len
+              omega
+          · have hgo : rfErr (errOfCode x.2.2) ≠ Gen.Err.ok := rfErr_errOfCode_ne _ hcode
+            simp only [hcode, hgo, ne_eq, not_false_eq_true, if_true, bind_ok, Nat.reduceEqDiff, if_false]
+            refine RFAgreeN_ok ?_ hof rfl hwf2 ?_ rfl rfl
+            · show errOfCode x.2.2 ≠ .panic
+              unfold errOfCode
+              split <;> intro hc <;> cases hc
+            · show N0 ≤ s'.len
+              omega
+
 
 /-- the capacity invariant of the history theorems: empty, or 7 spare bytes -/
 theorem gen_pbuf_readFrom (b : ParserBuffer) (h : PBWF b) (hcap : (ofPB b).CapOK)
